@@ -102,6 +102,8 @@ def seq_append(seq, v, st):
 def seq_elem(seq, term):
     if isinstance(seq.elem, api.ObjT):
         return read(seq.elem, seq.elem.cls, "", term)
+    if isinstance(seq.elem, api.TupT):
+        return read(seq.elem, "Tuple%d" % len(seq.elem.ts), "t", term)
     return term
 
 
